@@ -214,6 +214,7 @@ func execTok(seg []Ev) []Ev {
 			// tokens are those of what is left of the stream
 			prefix := string(toRunes(pf))
 			e["prefix"] = cps(prefix)
+			e["strings"] = toBool(in["strings"])
 			var res []*tokenizers.Token
 			oc, det = guarded(func() {
 				sc := sio.NewStringScanner(prefix + input)
